@@ -282,9 +282,14 @@ class Exchange:
         b.ld = self.now_ms()
         self.publish(b.market_id, [b])
 
-    def accept_async(self):
+    def accept_async(self, filled=False):
+        """the exchange accepts an asynchronously placed bet; `filled`: it is matched in full at once, so its
+        first order-stream update is also its last"""
         market_id, x, sref = self.pending_async.pop(0)
         b = self.new_bet(market_id, x, sref)
+        if filled:
+            b.avp = b.price
+            b.sm, b.sr, b.status, b.md = b.sr, 0.0, "EC", self.now_ms()
         self.publish(market_id, [b])
         return b
 
@@ -793,6 +798,8 @@ class LiveWorld:
             ev.append(("Dd",))
         if self.exchange.pending_async:
             ev.append(("EX_accept",))
+            if self.budgets["fill"] > 0:
+                ev.append(("EX_accept", "filled"))
         for n, b in enumerate(sorted(self.exchange.executable_bets(), key=lambda b: b.bet_id)):
             if self.budgets["fill"] > 0:
                 ev.append(("EX_fill", b.bet_id, "half"))
@@ -847,7 +854,11 @@ class LiveWorld:
             mid, res = self.last_delivered
             self.dispatch(events.CurrentOrdersEvent([res]))
         elif k == "EX_accept":
-            self.exchange.accept_async()
+            if len(ev) > 1:
+                self.budgets["fill"] -= 1
+                self.exchange.accept_async(filled=True)
+            else:
+                self.exchange.accept_async()
         elif k == "EX_fill":
             self.budgets["fill"] -= 1
             b = self.exchange.bets[ev[1]]
